@@ -219,9 +219,74 @@ def gen_input(rng):
 GENERATORS = {'plain': gen_plain, 'rec': gen_rec}
 
 
+# ---------------------------------------------------------------------------------------------
+# carve-outs: structural predicates over the program spec, each tied to one known finding
+# ---------------------------------------------------------------------------------------------
+def _preds(spec):
+    preds = {}
+    for a, b in declared_edges(spec):
+        preds.setdefault(b, set()).add(a)
+    return preds
+
+
+def ancestors(spec, name, preds=None):
+    preds = preds or _preds(spec)
+    seen = set()
+    todo = [name]
+    while todo:
+        x = todo.pop()
+        for p in preds.get(x, ()):
+            if p not in seen:
+                seen.add(p)
+                todo.append(p)
+    return seen
+
+
+def _can_fail(node):
+    return any(o != 'ok' for o in (node.get('plan') or ()))
+
+
+def carve_chained_oneof_with_fallback(spec):
+    """known finding oneof-chained: a one-of candidate whose sub-pipeline contains the consumer of another
+    one-of that can have a losing candidate followed by a winner"""
+    nodes = {n['name']: n for n in spec['nodes']}
+    preds = _preds(spec)
+    oneofs = [(n['name'], m[1]) for n in spec['nodes'] for _, m in n.get('params', ()) if m[0] == 'OneOf']
+    fallible = set()
+    for cons, cands in oneofs:
+        for c in cands[:-1]:
+            sub = ancestors(spec, c, preds) | {c}
+            if any(_can_fail(nodes[x]) for x in sub):
+                fallible.add(cons)
+    if not fallible:
+        return False
+    for cons, cands in oneofs:
+        for c in cands:
+            sub = ancestors(spec, c, preds) | {c}
+            if sub & (fallible - {cons}):
+                return True
+    return False
+
+
+CARVE_OUTS = {
+    'chained_oneof_with_fallback': carve_chained_oneof_with_fallback,
+}
+
+
+def excluded(spec):
+    for name, pred in CARVE_OUTS.items():
+        if pred(spec):
+            return name
+    return None
+
+
 def gen_program(rng, classes, **kw):
     c = rng.choice(classes)
-    return GENERATORS[c](rng, **kw)
+    for _ in range(50):
+        spec = GENERATORS[c](rng, **kw)
+        if excluded(spec) is None:
+            return spec
+    return gen_plain(rng, **{k: v for k, v in kw.items() if k in ('faults', 'n_max')})
 
 
 # ---------------------------------------------------------------------------------------------
